@@ -1,0 +1,17 @@
+//! C17 facade: crate-private ingress register operations needed to give an
+//! output-stream message ingress metadata.
+use std::sync::Arc;
+
+use crate::ingress::{IngressId, IngressInfo, Register};
+
+pub fn new_register() -> Arc<Register> {
+    Arc::new(Register::new())
+}
+
+pub fn register(reg: &Register) -> IngressId {
+    reg.register()
+}
+
+pub fn update_info(reg: &Register, id: IngressId, info: IngressInfo) {
+    reg.update_info(id, info);
+}
